@@ -366,9 +366,63 @@ def clone_cases(tier):
     return out
 
 
+# ----------------------------------------------------------------------------- conjunctions re-evaluated over several ticks
+#
+# `go b if A and B [and C]` / `aux ax if A and B [and C]` stay in one frame for several ticks while the shares the clauses
+# read change every tick (harness Share.update at the start of the tick, before every framer).  Every schedule of a small
+# value alphabet per share is enumerated; the transition / activation must happen at the first evaluation at which EVERY
+# written clause holds, whatever held or failed at earlier evaluations.
+
+CLAUSE_KINDS = {
+    "D": (".%s == 1",        lambda v: v == 1),
+    "I": (".%s == .one",     lambda v: v == 1),
+    "N": ("not .%s == 0",    lambda v: not (v == 0)),
+    "G": ("not .%s < .one",  lambda v: not (v < 1)),
+}
+CONJ_SHARES = ("p", "q", "r")
+
+
+def conjseq_cases(tier):
+    import itertools
+    out = []
+    alpha2 = (0, 1, 2) if tier == "thorough" else (0, 1)
+    plans = []       # (form, clause kinds, alphabet)
+    for form in ("go", "aux"):
+        for kinds in ("DD", "DI", "IN", "ND", "GI"):
+            plans.append((form, kinds, alpha2))
+    plans.append(("go", "DIN", (0, 1)))
+    if tier == "thorough":
+        plans += [("aux", "DIN", (0, 1)), ("go", "NDI", (0, 1)), ("aux", "GNI", (0, 1))]
+    horizon = 4
+    for form, kinds, alpha in plans:
+        n = len(kinds)
+        shares = CONJ_SHARES[:n]
+        cond = " and ".join(CLAUSE_KINDS[kd][0] % sh for kd, sh in zip(kinds, shares))
+        per_tick = list(itertools.product(alpha, repeat=n))
+        for sched in itertools.product(per_tick, repeat=horizon - 1):      # values at ticks 1..3
+            truth = []
+            for i, kd in enumerate(kinds):
+                truth.append(("ticks", [False] + [CLAUSE_KINDS[kd][1](vals[i]) for vals in sched]))
+            env = [(None, None)] + [(dict(zip(shares, vals)), None) for vals in sched]
+            inits = ["init .%s with value 0" % sh for sh in shares] + ["init .one with value 1"]
+            if form == "go":
+                src = ["house h"] + inits + ["framer f be active first a", "frame a", "  go b if " + cond, "frame b"]
+                watch, start, target = "f", "a", "b"
+            else:
+                src = ["house h"] + inits + ["framer f be active first a", "frame a", "  aux ax if " + cond,
+                                             "framer ax be aux first xa", "frame xa"]
+                watch, start, target = "ax", None, "xa"
+            src += ["framer twin be active first x", "frame x", ""]
+            label = "%s if %s | %s at ticks 1..3 = %s" % (form, cond, ",".join(shares), " ".join("".join(map(str, v)) for v in sched))
+            out.append(dict(family="conjseq-%s-%d" % (form, n), cond=cond, label=label, inits=inits, pre=[], horizon=horizon,
+                            text="\n".join(src), watch=watch, start=start, target=target, envshares=env, clauses=truth,
+                            group="conjseq|%s|%s" % (form, kinds)))
+    return out
+
+
 def all_cases(tier):
     return (cmp_cases(tier) + field_cases(tier) + bool_cases(tier) + clock_cases(tier) + conj_cases(tier)
-            + clone_cases(tier) + script_cases(tier) + env_cases(tier))
+            + clone_cases(tier) + script_cases(tier) + env_cases(tier) + conjseq_cases(tier))
 
 
 def program(case):
@@ -392,6 +446,8 @@ def clause_truth(cl, clocks, k):
         r = bool(v)
     elif cl[0] == "const":
         return cl[1]
+    elif cl[0] == "ticks":
+        return cl[1][k]
     elif cl[0] == "seq":
         _, state, op, goals, tol, neg = cl
         r = oracle(state, op, goals[k], tol)
@@ -470,6 +526,14 @@ def check_built(real, p, case):
                 write(house, env[k][1])
         rep["harness_writes"] = "per tick (start of tick before every framer, end of tick after every framer): %r; upd = " \
                                 "Share.update(value=v), raw = share['value'] = v, chg = Share.change(value=v) on .g" % (env,)
+    envs = case.get("envshares")
+    if envs:
+        def front(house, k):      # noqa: F811
+            if k < len(envs) and envs[k][0]:
+                for sh, v in envs[k][0].items():
+                    house.store.fetchShare("." + sh).update(value=v)
+        rep["harness_writes"] = "Share.update(value=v) at the start of tick k, before every framer: %r" % (
+            [e[0] for e in envs],)
     rr = real.run(res.houses, tick=TICK, horizon=case["horizon"], limit=60.0, env_front=front, env_back=back)
     if rr.outcome != "returned" or len(rr.ticks) != case["horizon"]:
         p.violation("%s|run-%s" % (case["group"], rr.outcome), case["cond"],
@@ -485,13 +549,13 @@ def check_built(real, p, case):
         actives.append(w[4] if w is not None else "<no framer %s>" % case.get("watch"))
     took = None
     for k, a in enumerate(actives):
-        if a == "b":
+        if a == case.get("target", "b"):
             took = k
             break
     want = expected_tick(case, clocks)
     fam = case["family"].split("-")[0]
     p.outcome("%s: %s" % (fam, "not taken" if want is None else "taken at tick %d" % want))
-    if actives[0] != "a":
+    if actives[0] != case.get("start", "a"):
         p.violation("%s|left-at-start" % case["group"], case["cond"], "framer f is not in frame a after the start tick: %r" % (actives,),
                     dict(rep, actives=actives))
         return
